@@ -102,10 +102,18 @@ def _job(args):
     faulthandler.dump_traceback_later(640, exit=True)
 
     def body():
+        from psim import seams
         fn = plans.profile_fn(profile)
         t0 = time.time()
+        # a sixth of the runs is a deployment with debug logging on
+        dbg = seams.debug_logging_for(seed)
+        seams.set_debug_logging(dbg)
         res = fn(_WORLD, seed, params)
         res['wall'] = time.time() - t0
+        res.setdefault('probes', {})['runs_with_debug_logging'] = int(dbg)
+        for f in res.get('findings', []):
+            if isinstance(f.get('replay'), dict):
+                f['replay']['debug_log'] = dbg
         return res
     try:
         res = _in_fresh_process(body, 600)
@@ -126,8 +134,11 @@ def _replay_job(rp):
     from psim import plans
     faulthandler.dump_traceback_later(140, exit=True)
     try:
-        return _in_fresh_process(
-            lambda: plans.replay_fn(rp['profile'])(_WORLD, rp), 120)
+        def body():
+            from psim import seams
+            seams.set_debug_logging(bool(rp.get('debug_log')))
+            return plans.replay_fn(rp['profile'])(_WORLD, rp)
+        return _in_fresh_process(body, 120)
     except Exception:
         return {'harness_error': traceback.format_exc()}
     finally:
